@@ -68,6 +68,10 @@ func genRdOp(t *Tape, kind int, start, qty int, server string, unit byte) rdOp {
 				f.Address = uint16(start)
 			}
 			o.Field = append(o.Field, f)
+			if t.Chance(1, 6) {
+				// a coil field in the list of a register request: not extractable from registers, and no reason to disturb the others
+				o.Field = append(o.Field, modbus.Field{Name: fmt.Sprintf("coil%d", i), ServerAddress: server, UnitID: unit, Type: modbus.FieldTypeCoil, Address: uint16(start + t.Choose(qty))})
+			}
 		}
 	}
 	return o
